@@ -53,6 +53,7 @@ func init() {
 			if strings.Contains(st, "@0") {
 				c.Nontrivial(canon)
 			}
+			c10Oracle(c, m, canon, st)
 			if canonModel(pm) != canon {
 				c.OracleFail("c10:frame", map[string]any{"model": canon}, "building the weighted graph modified the model", "")
 			}
